@@ -1368,7 +1368,7 @@ def default_inline_policy(crate):
             continue
         # tiny private accessors (`fn best(&self, id) -> &T { &self.map[&id] }`) are looked through wherever they are called
         live = [bl for bl in f.blocks if not bl["cleanup"]]
-        accessor = not any(bl["term"]["k"] == "switch" for bl in live) and sum(1 for bl in live if bl["term"]["k"] == "call") <= 1 and f.argc <= 2 and not any(f.local_ty(l).startswith("&mut") for l in range(1, f.argc + 1))
+        accessor = not any(bl["term"]["k"] == "switch" for bl in live) and sum(1 for bl in live if bl["term"]["k"] == "call") <= 1 and f.argc <= 4 and not any(f.local_ty(l).startswith("&mut") for l in range(1, f.argc + 1))
         if n != 1 and not accessor:
             continue
         if any(c.callee and c.callee.target == fid for c in f.all_calls()):
@@ -1378,7 +1378,15 @@ def default_inline_policy(crate):
             continue
         ok.add(fid)
     crate._cache[key] = ok
+    crate._cache["accessor_policy"] = {fid for fid in ok if sites[fid] != 1} | {fid for fid in ok if sites[fid] == 1 and
+        (lambda f: not any(bl["term"]["k"] == "switch" for bl in f.blocks if not bl["cleanup"]) and sum(1 for bl in f.blocks if not bl["cleanup"] and bl["term"]["k"] == "call") <= 1)(crate.bodies[fid])}
     return ok
+
+
+def accessor_view(crate, body):
+    """the body with tiny private accessors / constructor helpers (no branching, at most one call) spliced in"""
+    default_inline_policy(crate)
+    return inline_view(crate, body, depth=2, policy=crate._cache.get("accessor_policy", set()))
 
 
 def inline_view(crate, body, depth=3, keep=(), policy=None, max_blocks=1500):
